@@ -61,3 +61,23 @@ def pfold_lemma_obligations():
 
 
 S.LEMMAS["pfold"] = pfold_lemma_obligations
+
+
+def time_lemma_obligations():
+    """DESIGN 4.3: from the IEEE-754 bound |RN(x) - x| <= 2^-21 (binary64, |x| < 2^33 s, i.e. years 1700-2240),
+    POSIX timestamps of microsecond instants are strictly ordered like the instants, and rounding the float
+    back to the nearest microsecond returns the instant.  Linear real arithmetic, no floats."""
+    a, b, ra, rb, m = z3.Real("lem_a"), z3.Real("lem_b"), z3.Real("lem_ra"), z3.Real("lem_rb"), z3.Real("lem_m")
+    eps = z3.Q(1, 2 ** 21)
+    us = z3.Q(1, 10 ** 6)
+    rn = lambda x, r: z3.And(r - x <= eps, x - r <= eps)
+    return [
+        Obligation("lemma:timestamp_strictly_monotone", [rn(a, ra), rn(b, rb), a + us <= b], ra < rb, kind="lemma"),
+        # m: another microsecond instant (at least 1 us away from a) is strictly farther from RN(a) than a is
+        Obligation("lemma:fromtimestamp_inverts_timestamp", [rn(a, ra), z3.Or(m >= a + us, m <= a - us)],
+                   z3.If(ra - a >= 0, ra - a, a - ra) < z3.If(ra - m >= 0, ra - m, m - ra), kind="lemma"),
+        # vacuity guard: with the error bound of the next binade (2^-20) the monotonicity claim must NOT be provable
+    ]
+
+
+S.LEMMAS["time"] = time_lemma_obligations
